@@ -32,8 +32,11 @@
 
 typedef struct { char name[12]; int a[14]; int na; } op_t;
 
+typedef struct { unsigned long seq; char kind; int H; char *msg; } ev_t;
+
 typedef struct {
   int tid, nops;
+  ev_t *ev; int nev, capev, lastc;   /* error-state events of the concurrent phase (for the model correspondence) */
   op_t ops[MAXOPS];
   /* per run state */
   tjhandle h[NH];
@@ -89,6 +92,146 @@ static int watch_check(const char *when)
   return bad;
 }
 
+
+
+/* ---- error-state events: (global sequence number taken when the call has completed, kind, instance, message)
+   N new instance | C call completed without failure | F call failed with message | T thread-local string set |
+   G tj3GetErrorStr(instance) returned message | Q tj3GetErrorStr(NULL) returned message.
+   The sequence counter is a relaxed atomic (no happens-before edge that could hide a race from ThreadSanitizer). */
+static unsigned long ev_seq;
+static int ev_on;
+
+static int hidx(thr_t *t, tjhandle h)
+{
+  for (int i = 0; i < NH; i++) if (t->h[i] == h && h) return i;
+  return -1;
+}
+
+static void ev_add(thr_t *t, char kind, int H, const char *msg)
+{
+  if (!ev_on || (H < 0 && kind != 'T' && kind != 'Q')) return;
+  if (kind == 'C') { if (t->lastc == H) return; t->lastc = H; } else t->lastc = -1;
+  if (t->nev == t->capev) { t->capev = t->capev ? t->capev * 2 : 256; t->ev = (ev_t *)realloc(t->ev, t->capev * sizeof(ev_t)); }
+  ev_t *e = &t->ev[t->nev++];
+  e->seq = __atomic_fetch_add(&ev_seq, 1, __ATOMIC_RELAXED);
+  e->kind = kind; e->H = H; e->msg = msg ? strdup(msg) : NULL;
+  if (e->msg) for (char *q = e->msg; *q; q++) if (*q == '\n') *q = '|';
+}
+
+/* ---- heap isolation (un-instrumented build linked with --wrap=malloc,...): while C15_ISOLATE is active (single-threaded
+   third phase) every allocation made during an API call on instance X comes from X's own page-granular arena, and all
+   arenas of OTHER instances (alive or destroyed) are PROT_NONE while a call on X runs: a call that touches another
+   instance's heap memory faults and is reported. */
+#include <sys/mman.h>
+#include <signal.h>
+static int iso_on, in_lib;
+static int cur_owner;                 /* 0 = harness / no instance */
+static int n_owner;
+static int cur_tid = -1, cur_op = -1; static const char *cur_name = "";
+#define MAXREG 8192
+#define CHUNK (256u * 1024u)
+static struct { char *base; size_t size, used; int owner, open; } REG[MAXREG];
+static int nreg;
+#define MAXBIND 4096
+static struct { void *h; int owner; } BIND[MAXBIND];
+static int nbind;
+
+static int reg_of(const void *p)
+{
+  for (int i = 0; i < nreg; i++) if ((const char *)p >= REG[i].base && (const char *)p < REG[i].base + REG[i].size) return i;
+  return -1;
+}
+
+#ifdef C15_WRAP
+void *__real_malloc(size_t); void __real_free(void *); void *__real_calloc(size_t, size_t); void *__real_realloc(void *, size_t);
+
+static void *arena_alloc(int owner, size_t n)
+{
+  size_t need = ((n + 15) & ~(size_t)15) + 16;
+  int r = -1;
+  if (need <= CHUNK / 2)
+    for (int i = nreg - 1; i >= 0; i--) if (REG[i].owner == owner && REG[i].size - REG[i].used >= need && REG[i].size == CHUNK) { r = i; break; }
+  if (r < 0) {
+    size_t sz = need <= CHUNK / 2 ? CHUNK : ((need + 4095) & ~(size_t)4095);
+    if (nreg == MAXREG) return NULL;
+    void *m = mmap(NULL, sz, PROT_READ | PROT_WRITE, MAP_PRIVATE | MAP_ANONYMOUS, -1, 0);
+    if (m == MAP_FAILED) return NULL;
+    r = nreg++; REG[r].base = (char *)m; REG[r].size = sz; REG[r].used = 0; REG[r].owner = owner; REG[r].open = 1;
+  }
+  char *p = REG[r].base + REG[r].used;
+  REG[r].used += need;
+  *(size_t *)p = n;
+  return p + 16;
+}
+void *__wrap_malloc(size_t n) { return (in_lib && cur_owner) ? arena_alloc(cur_owner, n) : __real_malloc(n); }
+void *__wrap_calloc(size_t a, size_t b)
+{
+  if (!(in_lib && cur_owner)) return __real_calloc(a, b);
+  void *p = arena_alloc(cur_owner, a * b); if (p) memset(p, 0, a * b); return p;
+}
+void __wrap_free(void *p) { if (p && nreg && reg_of(p) >= 0) return; __real_free(p); }
+void *__wrap_realloc(void *p, size_t n)
+{
+  if (p && nreg && reg_of(p) >= 0) {
+    size_t old = *(size_t *)((char *)p - 16);
+    void *q = (in_lib && cur_owner) ? arena_alloc(cur_owner, n) : __real_malloc(n);
+    if (q) memcpy(q, p, old < n ? old : n);
+    return q;
+  }
+  if (in_lib && cur_owner && !p) return arena_alloc(cur_owner, n);
+  return __real_realloc(p, n);
+}
+static void *rehome(void *p, size_t n)
+{
+  if (!p || !nreg || reg_of(p) < 0) return p;
+  void *q = __real_malloc(n ? n : 1); memcpy(q, p, n); return q;
+}
+#else
+static void *rehome(void *p, size_t n) { (void)n; return p; }
+#endif
+
+static void iso_switch(int owner)
+{
+  cur_owner = owner;
+  if (!iso_on || !owner) return;
+  for (int i = 0; i < nreg; i++) {
+    int want = REG[i].owner == owner;
+    if (want != REG[i].open) { mprotect(REG[i].base, REG[i].size, want ? PROT_READ | PROT_WRITE : PROT_NONE); REG[i].open = want; }
+  }
+}
+static int owner_of(void *h) { for (int i = nbind - 1; i >= 0; i--) if (BIND[i].h == h) return BIND[i].owner; return 0; }
+static void own_set(void *h) { if (iso_on) iso_switch(owner_of(h)); }
+static void own_new(void) { if (iso_on) iso_switch(++n_owner); }
+static void own_bind(void *h) { if (iso_on && h && nbind < MAXBIND) { BIND[nbind].h = h; BIND[nbind].owner = cur_owner; nbind++; } }
+static void own_none(void) { if (iso_on) cur_owner = 0; }
+
+static void iso_fault(int sig, siginfo_t *si, void *ctx)
+{
+  (void)ctx;
+  int r = reg_of(si->si_addr);
+  char buf[300];
+  if (r >= 0 && iso_on) {
+    int n = snprintf(buf, sizeof(buf), "ISOLATION tid=%d op=%d name=%s call-on-owner=%d touched-owner=%d offset=%ld\n", cur_tid, cur_op,
+                     cur_name, cur_owner, REG[r].owner, (long)((char *)si->si_addr - REG[r].base));
+    if (write(1, buf, n) < 0) {}
+    _exit(77);
+  }
+  signal(sig, SIG_DFL);
+}
+
+static tjhandle tj_init(int type) { own_new(); in_lib = iso_on; tjhandle h = tj3Init(type); in_lib = 0; own_bind(h); return h; }
+
+/* in_lib: allocations are charged to the instance only while library code runs (harness allocations stay outside) */
+#define CK(h, e)  ({ own_set(h); in_lib = iso_on; int r_ = (e); in_lib = 0; ev_rc(t, (h), r_); })
+#define CKP(h, e) ({ own_set(h); in_lib = iso_on; void *r_ = (void *)(e); in_lib = 0; ev_ptr(t, (h), r_); })
+#define CKZ(h, e) ({ own_set(h); in_lib = iso_on; size_t r_ = (e); in_lib = 0; ev_sz(t, (h), r_); })
+static int ev_rc(thr_t *t, tjhandle h, int rc)
+{
+  if (rc < 0) ev_add(t, 'F', hidx(t, h), tj3GetErrorStr(h)); else ev_add(t, 'C', hidx(t, h), NULL);
+  return rc;
+}
+static void *ev_ptr(thr_t *t, tjhandle h, void *p) { ev_rc(t, h, p ? 0 : -1); return p; }
+static size_t ev_sz(thr_t *t, tjhandle h, size_t z) { ev_rc(t, h, z ? 0 : -1); return z; }
 
 static uint64_t fnv(const void *p, size_t n)
 {
@@ -238,7 +381,10 @@ static void lj_compress(thr_t *t, int k, int S, int w, int h, int q, int opt, ui
 
 static void errinfo(thr_t *t, tjhandle h, const char *tag)
 {
-  logf_(t, "  %s err=\"%s\" code=%d", tag, tj3GetErrorStr(h), tj3GetErrorCode(h));
+  own_set(h);
+  const char *m = tj3GetErrorStr(h);
+  logf_(t, "  %s err=\"%s\" code=%d", tag, m, tj3GetErrorCode(h));
+  ev_add(t, 'G', hidx(t, h), m);
 }
 
 static void free_slot(thr_t *t, int s)
@@ -260,30 +406,33 @@ static void run_op(thr_t *t, int k)
   op_t *o = &t->ops[k];
   int *a = o->a;
   const char *n = o->name;
+  if (iso_on) { own_none(); cur_tid = t->tid; cur_op = k; cur_name = n; }
   if (strcmp(n, "ownerr") && strcmp(n, "geterr") && strcmp(n, "gerr") && strcmp(n, "helper") && strcmp(n, "yield") &&
       strcmp(n, "legacy") && strcmp(n, "icc") && strcmp(n, "planes") && strcmp(n, "ljdec") && strcmp(n, "ljcomp"))
     t->mark[a[0] % NH][0] = 0;        /* any other call on instance H may replace or clear its error state */
   if (!strcmp(n, "icc") || !strcmp(n, "planes")) t->mark[0][0] = t->mark[1][0] = 0;
   if (!strcmp(n, "init")) {           /* init H type */
     int H = a[0] % NH;
-    if (t->h[H]) tj3Destroy(t->h[H]);
-    t->h[H] = tj3Init(a[1]);
+    if (t->h[H]) { own_set(t->h[H]); tj3Destroy(t->h[H]); }
+    t->h[H] = tj_init(a[1]);
+    if (t->h[H]) ev_add(t, 'N', H, NULL);
     t->htype[H] = a[1];
     logf_(t, "%d init %d %d -> %s", k, H, a[1], t->h[H] ? "ok" : "NULL");
   } else if (!strcmp(n, "usepre")) {  /* adopt the instance the main thread created for us */
     int H = a[0] % NH;
-    if (t->h[H]) tj3Destroy(t->h[H]);
+    if (t->h[H]) { own_set(t->h[H]); tj3Destroy(t->h[H]); }
     t->h[H] = t->pre; t->pre = NULL; t->htype[H] = a[1];
+    if (t->h[H]) ev_add(t, 'N', H, NULL);
     logf_(t, "%d usepre %d -> %s", k, H, t->h[H] ? "ok" : "NULL");
   } else if (!strcmp(n, "destroy")) {
     int H = a[0] % NH;
-    if (t->h[H]) tj3Destroy(t->h[H]);
+    if (t->h[H]) { own_set(t->h[H]); tj3Destroy(t->h[H]); }
     t->h[H] = NULL;
     logf_(t, "%d destroy %d", k, H);
   } else if (!strcmp(n, "set")) {     /* set H param value */
     int H = a[0] % NH;
     if (!t->h[H]) { logf_(t, "%d set skip", k); return; }
-    int rc = tj3Set(t->h[H], a[1], a[2]);
+    int rc = CK(t->h[H], tj3Set(t->h[H], a[1], a[2]));
     logf_(t, "%d set %d %d -> %d get=%d", k, a[1], a[2], rc, tj3Get(t->h[H], a[1]));
     if (rc < 0) { errinfo(t, t->h[H], "set"); own(t, k, "tj3Set", tj3GetErrorStr(t->h[H]), "tj3Set"); }
   } else if (!strcmp(n, "comp")) {    /* comp H slot prec w h pf subsamp qual flags seed */
@@ -291,55 +440,56 @@ static void run_op(thr_t *t, int k)
     tjhandle hd = t->h[H];
     if (!hd || !(t->htype[H] == TJINIT_COMPRESS)) { logf_(t, "%d comp skip", k); return; }
     int lossless = (fl & 8) != 0 || prec == 16;
-    tj3Set(hd, TJPARAM_PRECISION, prec);
-    tj3Set(hd, TJPARAM_LOSSLESS, lossless);
-    if (lossless) { tj3Set(hd, TJPARAM_LOSSLESSPSV, 1 + (fl >> 8) % 7); tj3Set(hd, TJPARAM_LOSSLESSPT, (fl >> 12) % 3); }
-    else { tj3Set(hd, TJPARAM_SUBSAMP, ss); tj3Set(hd, TJPARAM_QUALITY, q); }
-    tj3Set(hd, TJPARAM_OPTIMIZE, (fl & 1) != 0);
-    tj3Set(hd, TJPARAM_PROGRESSIVE, (fl & 2) != 0);
-    tj3Set(hd, TJPARAM_ARITHMETIC, (fl & 4) != 0);
-    tj3Set(hd, TJPARAM_FASTDCT, (fl & 16) != 0);
-    tj3Set(hd, TJPARAM_RESTARTROWS, (fl & 32) ? 1 : 0);
-    tj3Set(hd, TJPARAM_NOREALLOC, 0);
-    tj3Set(hd, TJPARAM_MAXMEMORY, a[10] > 0 ? a[10] : 0);
+    CK(hd, tj3Set(hd, TJPARAM_PRECISION, prec));
+    CK(hd, tj3Set(hd, TJPARAM_LOSSLESS, lossless));
+    if (lossless) { CK(hd, tj3Set(hd, TJPARAM_LOSSLESSPSV, 1 + (fl >> 8) % 7)); CK(hd, tj3Set(hd, TJPARAM_LOSSLESSPT, (fl >> 12) % 3)); }
+    else { CK(hd, tj3Set(hd, TJPARAM_SUBSAMP, ss)); CK(hd, tj3Set(hd, TJPARAM_QUALITY, q)); }
+    CK(hd, tj3Set(hd, TJPARAM_OPTIMIZE, (fl & 1) != 0));
+    CK(hd, tj3Set(hd, TJPARAM_PROGRESSIVE, (fl & 2) != 0));
+    CK(hd, tj3Set(hd, TJPARAM_ARITHMETIC, (fl & 4) != 0));
+    CK(hd, tj3Set(hd, TJPARAM_FASTDCT, (fl & 16) != 0));
+    CK(hd, tj3Set(hd, TJPARAM_RESTARTROWS, (fl & 32) ? 1 : 0));
+    CK(hd, tj3Set(hd, TJPARAM_NOREALLOC, 0));
+    CK(hd, tj3Set(hd, TJPARAM_MAXMEMORY, a[10] > 0 ? a[10] : 0));
     void *img = mkimage(prec, w, h, tjPixelSize[pf], (uint32_t)a[9]);
     free_slot(t, S);
     int rc;
-    if (prec <= 8) rc = tj3Compress8(hd, (unsigned char *)img, w, 0, h, pf, &t->slot[S], &t->slotsize[S]);
-    else if (prec <= 12) rc = tj3Compress12(hd, (short *)img, w, 0, h, pf, &t->slot[S], &t->slotsize[S]);
-    else rc = tj3Compress16(hd, (unsigned short *)img, w, 0, h, pf, &t->slot[S], &t->slotsize[S]);
+    if (prec <= 8) rc = CK(hd, tj3Compress8(hd, (unsigned char *)img, w, 0, h, pf, &t->slot[S], &t->slotsize[S]));
+    else if (prec <= 12) rc = CK(hd, tj3Compress12(hd, (short *)img, w, 0, h, pf, &t->slot[S], &t->slotsize[S]));
+    else rc = CK(hd, tj3Compress16(hd, (unsigned short *)img, w, 0, h, pf, &t->slot[S], &t->slotsize[S]));
     free(img);
     logf_(t, "%d comp p%d %dx%d pf%d ss%d q%d fl%x -> %d size=%zu h=%016llx", k, prec, w, h, pf, ss, q, fl, rc,
           rc == 0 ? t->slotsize[S] : 0, rc == 0 ? (unsigned long long)fnv(t->slot[S], t->slotsize[S]) : 0ULL);
     if (rc < 0) { errinfo(t, hd, "comp"); free_slot(t, S); }
+    else t->slot[S] = (unsigned char *)rehome(t->slot[S], t->slotsize[S]);
   } else if (!strcmp(n, "decomp")) {  /* decomp H slot pf sfidx flags */
     int H = a[0] % NH, S = a[1] % NS, pf = a[2], fl = a[4];
     tjhandle hd = t->h[H];
     if (!hd || t->htype[H] == TJINIT_COMPRESS || !t->slot[S]) { logf_(t, "%d decomp skip", k); return; }
-    tj3Set(hd, TJPARAM_SCANLIMIT, a[5] > 0 ? a[5] : 0);      /* extra args: scan limit, memory limit (MB) */
-    tj3Set(hd, TJPARAM_MAXMEMORY, a[6] > 0 ? a[6] : 0);
-    int rc = tj3DecompressHeader(hd, t->slot[S], t->slotsize[S]);
+    CK(hd, tj3Set(hd, TJPARAM_SCANLIMIT, a[5] > 0 ? a[5] : 0));      /* extra args: scan limit, memory limit (MB) */
+    CK(hd, tj3Set(hd, TJPARAM_MAXMEMORY, a[6] > 0 ? a[6] : 0));
+    int rc = CK(hd, tj3DecompressHeader(hd, t->slot[S], t->slotsize[S]));
     if (rc < 0) { logf_(t, "%d decomp header -> %d", k, rc); errinfo(t, hd, "hdr"); return; }
     int w = tj3Get(hd, TJPARAM_JPEGWIDTH), h = tj3Get(hd, TJPARAM_JPEGHEIGHT), prec = tj3Get(hd, TJPARAM_PRECISION);
     int ll = tj3Get(hd, TJPARAM_LOSSLESS);
     int nsf = 0; tjscalingfactor *sfs = tj3GetScalingFactors(&nsf);
     tjscalingfactor sf = { 1, 1 };
     if (!ll && nsf > 0) sf = sfs[a[3] % nsf];
-    tj3SetScalingFactor(hd, sf);
-    tj3Set(hd, TJPARAM_FASTUPSAMPLE, (fl & 1) != 0);
-    tj3Set(hd, TJPARAM_FASTDCT, (fl & 2) != 0);
-    tj3Set(hd, TJPARAM_BOTTOMUP, (fl & 4) != 0);
+    CK(hd, tj3SetScalingFactor(hd, sf));
+    CK(hd, tj3Set(hd, TJPARAM_FASTUPSAMPLE, (fl & 1) != 0));
+    CK(hd, tj3Set(hd, TJPARAM_FASTDCT, (fl & 2) != 0));
+    CK(hd, tj3Set(hd, TJPARAM_BOTTOMUP, (fl & 4) != 0));
     int sw = TJSCALED(w, sf), sh = TJSCALED(h, sf), ps = tjPixelSize[pf];
     size_t nsamp = (size_t)sw * sh * ps;
     void *out = calloc(nsamp ? nsamp : 1, prec <= 8 ? 1 : 2);
-    if (prec <= 8) rc = tj3Decompress8(hd, t->slot[S], t->slotsize[S], (unsigned char *)out, 0, pf);
-    else if (prec <= 12) rc = tj3Decompress12(hd, t->slot[S], t->slotsize[S], (short *)out, 0, pf);
-    else rc = tj3Decompress16(hd, t->slot[S], t->slotsize[S], (unsigned short *)out, 0, pf);
+    if (prec <= 8) rc = CK(hd, tj3Decompress8(hd, t->slot[S], t->slotsize[S], (unsigned char *)out, 0, pf));
+    else if (prec <= 12) rc = CK(hd, tj3Decompress12(hd, t->slot[S], t->slotsize[S], (short *)out, 0, pf));
+    else rc = CK(hd, tj3Decompress16(hd, t->slot[S], t->slotsize[S], (unsigned short *)out, 0, pf));
     logf_(t, "%d decomp %dx%d p%d pf%d sf%d/%d fl%x sl%d mm%d -> %d h=%016llx", k, w, h, prec, pf, sf.num, sf.denom, fl,
           a[5] > 0 ? a[5] : 0, a[6] > 0 ? a[6] : 0, rc, (unsigned long long)fnv(out, nsamp * (prec <= 8 ? 1 : 2)));
     if (rc < 0) errinfo(t, hd, "decomp");
     free(out);
-    sf.num = sf.denom = 1; tj3SetScalingFactor(hd, sf);
+    sf.num = sf.denom = 1; CK(hd, tj3SetScalingFactor(hd, sf));
   } else if (!strcmp(n, "xform")) {   /* xform H slot dst op options */
     int H = a[0] % NH, S = a[1] % NS, D = a[2] % NS;
     tjhandle hd = t->h[H];
@@ -347,53 +497,55 @@ static void run_op(thr_t *t, int k)
     tjtransform xf; memset(&xf, 0, sizeof(xf));
     xf.op = a[3]; xf.options = a[4];
     free_slot(t, D);
-    tj3Set(hd, TJPARAM_NOREALLOC, 0);
-    tj3Set(hd, TJPARAM_SCANLIMIT, a[5] > 0 ? a[5] : 0);
-    tj3Set(hd, TJPARAM_MAXMEMORY, a[6] > 0 ? a[6] : 0);
-    logf_(t, "  xformbufsize %zu", tj3TransformBufSize(hd, &xf));
-    int rc = tj3Transform(hd, t->slot[S], t->slotsize[S], 1, &t->slot[D], &t->slotsize[D], &xf);
+    CK(hd, tj3Set(hd, TJPARAM_NOREALLOC, 0));
+    CK(hd, tj3Set(hd, TJPARAM_SCANLIMIT, a[5] > 0 ? a[5] : 0));
+    CK(hd, tj3Set(hd, TJPARAM_MAXMEMORY, a[6] > 0 ? a[6] : 0));
+    logf_(t, "  xformbufsize %zu", CKZ(hd, tj3TransformBufSize(hd, &xf)));
+    int rc = CK(hd, tj3Transform(hd, t->slot[S], t->slotsize[S], 1, &t->slot[D], &t->slotsize[D], &xf));
     logf_(t, "%d xform op%d opt%x -> %d size=%zu h=%016llx", k, a[3], a[4], rc, rc == 0 ? t->slotsize[D] : 0,
           rc == 0 ? (unsigned long long)fnv(t->slot[D], t->slotsize[D]) : 0ULL);
     if (rc < 0) { errinfo(t, hd, "xform"); free_slot(t, D); }
+    else t->slot[D] = (unsigned char *)rehome(t->slot[D], t->slotsize[D]);
   } else if (!strcmp(n, "yuvenc")) {  /* yuvenc H w h pf subsamp seed */
     int H = a[0] % NH, w = a[1], h = a[2], pf = a[3], ss = a[4];
     tjhandle hd = t->h[H];
     if (!hd || t->htype[H] != TJINIT_COMPRESS) { logf_(t, "%d yuvenc skip", k); return; }
-    tj3Set(hd, TJPARAM_PRECISION, 8); tj3Set(hd, TJPARAM_LOSSLESS, 0);
-    tj3Set(hd, TJPARAM_SUBSAMP, ss);
+    CK(hd, tj3Set(hd, TJPARAM_PRECISION, 8)); CK(hd, tj3Set(hd, TJPARAM_LOSSLESS, 0));
+    CK(hd, tj3Set(hd, TJPARAM_SUBSAMP, ss));
     size_t ys = tj3YUVBufSize(w, 4, h, ss);
     unsigned char *img = (unsigned char *)mkimage(8, w, h, tjPixelSize[pf], (uint32_t)a[5]);
     unsigned char *yuv = (unsigned char *)calloc(ys ? ys : 1, 1);
-    int rc = tj3EncodeYUV8(hd, img, w, 0, h, pf, yuv, 4);
+    int rc = CK(hd, tj3EncodeYUV8(hd, img, w, 0, h, pf, yuv, 4));
     logf_(t, "%d yuvenc %dx%d pf%d ss%d -> %d h=%016llx", k, w, h, pf, ss, rc, (unsigned long long)fnv(yuv, ys));
     if (rc < 0) errinfo(t, hd, "yuvenc");
     else {
       int S = a[5] % NS;
       free_slot(t, S);
-      tj3Set(hd, TJPARAM_QUALITY, 80); tj3Set(hd, TJPARAM_NOREALLOC, 0);
-      rc = tj3CompressFromYUV8(hd, yuv, w, 4, h, &t->slot[S], &t->slotsize[S]);
+      CK(hd, tj3Set(hd, TJPARAM_QUALITY, 80)); CK(hd, tj3Set(hd, TJPARAM_NOREALLOC, 0));
+      rc = CK(hd, tj3CompressFromYUV8(hd, yuv, w, 4, h, &t->slot[S], &t->slotsize[S]));
       logf_(t, "  yuvcomp -> %d size=%zu h=%016llx", rc, rc == 0 ? t->slotsize[S] : 0,
             rc == 0 ? (unsigned long long)fnv(t->slot[S], t->slotsize[S]) : 0ULL);
       if (rc < 0) { errinfo(t, hd, "yuvcomp"); free_slot(t, S); }
+      else t->slot[S] = (unsigned char *)rehome(t->slot[S], t->slotsize[S]);
     }
     free(img); free(yuv);
   } else if (!strcmp(n, "yuvdec")) {  /* yuvdec H slot pf */
     int H = a[0] % NH, S = a[1] % NS, pf = a[2];
     tjhandle hd = t->h[H];
     if (!hd || t->htype[H] == TJINIT_COMPRESS || !t->slot[S]) { logf_(t, "%d yuvdec skip", k); return; }
-    int rc = tj3DecompressHeader(hd, t->slot[S], t->slotsize[S]);
+    int rc = CK(hd, tj3DecompressHeader(hd, t->slot[S], t->slotsize[S]));
     if (rc < 0) { logf_(t, "%d yuvdec header -> %d", k, rc); errinfo(t, hd, "hdr"); return; }
     int w = tj3Get(hd, TJPARAM_JPEGWIDTH), h = tj3Get(hd, TJPARAM_JPEGHEIGHT), ss = tj3Get(hd, TJPARAM_SUBSAMP);
     if (tj3Get(hd, TJPARAM_PRECISION) != 8 || tj3Get(hd, TJPARAM_LOSSLESS) || ss < 0) { logf_(t, "%d yuvdec n/a", k); return; }
     size_t ys = tj3YUVBufSize(w, 4, h, ss);
     unsigned char *yuv = (unsigned char *)calloc(ys ? ys : 1, 1);
-    rc = tj3DecompressToYUV8(hd, t->slot[S], t->slotsize[S], yuv, 4);
+    rc = CK(hd, tj3DecompressToYUV8(hd, t->slot[S], t->slotsize[S], yuv, 4));
     logf_(t, "%d yuvdec %dx%d ss%d -> %d h=%016llx", k, w, h, ss, rc, (unsigned long long)fnv(yuv, ys));
     if (rc < 0) errinfo(t, hd, "yuvdec");
     else {
       size_t nb = (size_t)w * h * tjPixelSize[pf];
       unsigned char *rgb = (unsigned char *)calloc(nb ? nb : 1, 1);
-      rc = tj3DecodeYUV8(hd, yuv, 4, rgb, w, 0, h, pf);
+      rc = CK(hd, tj3DecodeYUV8(hd, yuv, 4, rgb, w, 0, h, pf));
       logf_(t, "  decodeyuv pf%d -> %d h=%016llx", pf, rc, (unsigned long long)fnv(rgb, nb));
       if (rc < 0) errinfo(t, hd, "decodeyuv");
       free(rgb);
@@ -406,7 +558,7 @@ static void run_op(thr_t *t, int k)
     unsigned char junk[64];
     for (int i = 0; i < 64; i++) junk[i] = (unsigned char)(i * 7 + a[1]);
     junk[0] = (unsigned char)a[1]; junk[1] = (unsigned char)a[2];
-    int rc = tj3DecompressHeader(hd, junk, sizeof(junk));
+    int rc = CK(hd, tj3DecompressHeader(hd, junk, sizeof(junk)));
     char want[40];
     snprintf(want, sizeof(want), "0x%02x 0x%02x", a[1] & 255, a[2] & 255);
     logf_(t, "%d badhdr %s -> %d", k, want, rc);
@@ -424,14 +576,14 @@ static void run_op(thr_t *t, int k)
     tjhandle hd = t->h[H];
     if (!hd || t->htype[H] == TJINIT_COMPRESS || !t->slot[S] || t->slotsize[S] < 200) { logf_(t, "%d trunc skip", k); return; }
     size_t cut = t->slotsize[S] * (size_t)(20 + a[2] % 75) / 100;
-    int rc = tj3DecompressHeader(hd, t->slot[S], cut);
+    int rc = CK(hd, tj3DecompressHeader(hd, t->slot[S], cut));
     if (rc < 0) { logf_(t, "%d trunc header -> %d", k, rc); errinfo(t, hd, "hdr"); return; }
     int w = tj3Get(hd, TJPARAM_JPEGWIDTH), h = tj3Get(hd, TJPARAM_JPEGHEIGHT), prec = tj3Get(hd, TJPARAM_PRECISION);
     size_t nsamp = (size_t)w * h * tjPixelSize[pf];
     void *out = calloc(nsamp ? nsamp : 1, prec <= 8 ? 1 : 2);
-    if (prec <= 8) rc = tj3Decompress8(hd, t->slot[S], cut, (unsigned char *)out, 0, pf);
-    else if (prec <= 12) rc = tj3Decompress12(hd, t->slot[S], cut, (short *)out, 0, pf);
-    else rc = tj3Decompress16(hd, t->slot[S], cut, (unsigned short *)out, 0, pf);
+    if (prec <= 8) rc = CK(hd, tj3Decompress8(hd, t->slot[S], cut, (unsigned char *)out, 0, pf));
+    else if (prec <= 12) rc = CK(hd, tj3Decompress12(hd, t->slot[S], cut, (short *)out, 0, pf));
+    else rc = CK(hd, tj3Decompress16(hd, t->slot[S], cut, (unsigned short *)out, 0, pf));
     logf_(t, "%d trunc cut=%zu -> %d h=%016llx", k, cut, rc, (unsigned long long)fnv(out, nsamp * (prec <= 8 ? 1 : 2)));
     errinfo(t, hd, "trunc");
     free(out);
@@ -442,10 +594,10 @@ static void run_op(thr_t *t, int k)
     int rc = 0; const char *fn = "";
     unsigned char px[16] = { 0 }; unsigned char *jb = NULL; size_t js = 0;
     switch (a[1] % 4) {
-    case 0: rc = tj3Compress8(hd, px, 0, 0, 1, TJPF_RGB, &jb, &js); fn = "tj3Compress8"; break;
-    case 1: rc = tj3Set(hd, TJPARAM_QUALITY, 1000 + a[1]); fn = "tj3Set"; break;
-    case 2: rc = tj3DecompressHeader(hd, NULL, 10); fn = "tj3DecompressHeader"; break;
-    default: rc = tj3Decompress8(hd, px, 16, NULL, 0, TJPF_RGB); fn = "tj3Decompress8"; break;
+    case 0: rc = CK(hd, tj3Compress8(hd, px, 0, 0, 1, TJPF_RGB, &jb, &js)); fn = "tj3Compress8"; break;
+    case 1: rc = CK(hd, tj3Set(hd, TJPARAM_QUALITY, 1000 + a[1])); fn = "tj3Set"; break;
+    case 2: rc = CK(hd, tj3DecompressHeader(hd, NULL, 10)); fn = "tj3DecompressHeader"; break;
+    default: rc = CK(hd, tj3Decompress8(hd, px, 16, NULL, 0, TJPF_RGB)); fn = "tj3Decompress8"; break;
     }
     logf_(t, "%d badarg %d -> %d", k, a[1] % 4, rc);
     errinfo(t, hd, "badarg");
@@ -461,8 +613,10 @@ static void run_op(thr_t *t, int k)
     int H = a[0] % NH;
     tjhandle hd = t->h[H];
     if (!hd || !t->mark[H][0]) { logf_(t, "%d ownerr skip", k); return; }
+    own_set(hd);
     const char *s1 = tj3GetErrorStr(hd);
     logf_(t, "%d ownerr %d \"%s\"", k, H, s1);
+    ev_add(t, 'G', H, s1);
     own(t, k, "cross-instance: error string retrieved for an instance after another instance failed", s1, t->mark[H]);
 
   } else if (!strcmp(n, "icc")) {     /* icc n seed w h : ICC profile set on the compressor, read back by the decompressor */
@@ -472,39 +626,40 @@ static void run_op(thr_t *t, int k)
     unsigned char *prof = (unsigned char *)malloc(nb);
     uint32_t sd = (uint32_t)a[1];
     for (size_t i = 0; i < nb; i++) prof[i] = (unsigned char)lcg(&sd);
-    int rc = tj3SetICCProfile(hc, prof, nb);
-    tj3Set(hc, TJPARAM_PRECISION, 8); tj3Set(hc, TJPARAM_LOSSLESS, 0); tj3Set(hc, TJPARAM_SUBSAMP, TJSAMP_420);
-    tj3Set(hc, TJPARAM_QUALITY, 70); tj3Set(hc, TJPARAM_NOREALLOC, 0); tj3Set(hc, TJPARAM_MAXMEMORY, 0);
+    int rc = CK(hc, tj3SetICCProfile(hc, prof, nb));
+    CK(hc, tj3Set(hc, TJPARAM_PRECISION, 8)); CK(hc, tj3Set(hc, TJPARAM_LOSSLESS, 0)); CK(hc, tj3Set(hc, TJPARAM_SUBSAMP, TJSAMP_420));
+    CK(hc, tj3Set(hc, TJPARAM_QUALITY, 70)); CK(hc, tj3Set(hc, TJPARAM_NOREALLOC, 0)); CK(hc, tj3Set(hc, TJPARAM_MAXMEMORY, 0));
     unsigned char *img = (unsigned char *)mkimage(8, a[2], a[3], 3, sd);
     unsigned char *jb = NULL; size_t js = 0;
-    int rc2 = tj3Compress8(hc, img, a[2], 0, a[3], TJPF_RGB, &jb, &js);
+    int rc2 = CK(hc, tj3Compress8(hc, img, a[2], 0, a[3], TJPF_RGB, &jb, &js));
     free(img);
     logf_(t, "%d icc set %zu -> %d comp -> %d size=%zu", k, nb, rc, rc2, rc2 == 0 ? js : 0);
+    if (rc2 == 0) jb = (unsigned char *)rehome(jb, js);
     if (rc2 == 0) {
-      tj3Set(hd, TJPARAM_SAVEMARKERS, 2); tj3Set(hd, TJPARAM_SCANLIMIT, 0); tj3Set(hd, TJPARAM_MAXMEMORY, 0);
-      int rc3 = tj3DecompressHeader(hd, jb, js);
+      CK(hd, tj3Set(hd, TJPARAM_SAVEMARKERS, 2)); CK(hd, tj3Set(hd, TJPARAM_SCANLIMIT, 0)); CK(hd, tj3Set(hd, TJPARAM_MAXMEMORY, 0));
+      int rc3 = CK(hd, tj3DecompressHeader(hd, jb, js));
       unsigned char *got = NULL; size_t gs = 0;
-      int rc4 = rc3 == 0 ? tj3GetICCProfile(hd, &got, &gs) : -1;
+      int rc4 = rc3 == 0 ? CK(hd, tj3GetICCProfile(hd, &got, &gs)) : -1;
       int same = rc4 == 0 && gs == nb && !memcmp(got, prof, nb);
       logf_(t, "  icc get -> %d %d size=%zu same=%d", rc3, rc4, gs, same);
       if (rc4 < 0) errinfo(t, hd, "icc");
       if (got) tj3Free(got);
     } else errinfo(t, hc, "icc");
-    tj3SetICCProfile(hc, NULL, 0);
+    CK(hc, tj3SetICCProfile(hc, NULL, 0));
     if (jb) tj3Free(jb);
     free(prof);
   } else if (!strcmp(n, "crop")) {    /* crop H slot pf xi yi wi hi sfidx : partial decompression (8-bit lossy) */
     int H = a[0] % NH, S = a[1] % NS, pf = a[2];
     tjhandle hd = t->h[H];
     if (!hd || t->htype[H] == TJINIT_COMPRESS || !t->slot[S]) { logf_(t, "%d crop skip", k); return; }
-    tj3Set(hd, TJPARAM_SCANLIMIT, 0); tj3Set(hd, TJPARAM_MAXMEMORY, 0);
-    int rc = tj3DecompressHeader(hd, t->slot[S], t->slotsize[S]);
+    CK(hd, tj3Set(hd, TJPARAM_SCANLIMIT, 0)); CK(hd, tj3Set(hd, TJPARAM_MAXMEMORY, 0));
+    int rc = CK(hd, tj3DecompressHeader(hd, t->slot[S], t->slotsize[S]));
     if (rc < 0) { logf_(t, "%d crop header -> %d", k, rc); errinfo(t, hd, "hdr"); return; }
     int w = tj3Get(hd, TJPARAM_JPEGWIDTH), h = tj3Get(hd, TJPARAM_JPEGHEIGHT), ss = tj3Get(hd, TJPARAM_SUBSAMP);
     if (tj3Get(hd, TJPARAM_PRECISION) != 8 || tj3Get(hd, TJPARAM_LOSSLESS) || ss < 0 || ss >= TJ_NUMSAMP) { logf_(t, "%d crop n/a", k); return; }
     int nsf = 0; tjscalingfactor *sfs = tj3GetScalingFactors(&nsf);
     tjscalingfactor sf = sfs[a[7] % nsf];
-    tj3SetScalingFactor(hd, sf);
+    CK(hd, tj3SetScalingFactor(hd, sf));
     int sw = TJSCALED(w, sf), sh = TJSCALED(h, sf);
     int mw = TJSCALED(tjMCUWidth[ss], sf);
     tjregion r;
@@ -512,24 +667,24 @@ static void run_op(thr_t *t, int k)
     r.y = a[4] % (sh > 0 ? sh : 1);
     if (r.x >= sw) r.x = 0;
     r.w = 1 + a[5] % (sw - r.x); r.h = 1 + a[6] % (sh - r.y);
-    rc = tj3SetCroppingRegion(hd, r);
+    rc = CK(hd, tj3SetCroppingRegion(hd, r));
     if (rc < 0) { logf_(t, "%d crop region %d,%d %dx%d of %dx%d -> %d", k, r.x, r.y, r.w, r.h, sw, sh, rc); errinfo(t, hd, "crop"); }
     else {
       size_t nb = (size_t)r.w * r.h * tjPixelSize[pf];
       unsigned char *out = (unsigned char *)calloc(nb ? nb : 1, 1);
-      rc = tj3Decompress8(hd, t->slot[S], t->slotsize[S], out, 0, pf);
+      rc = CK(hd, tj3Decompress8(hd, t->slot[S], t->slotsize[S], out, 0, pf));
       logf_(t, "%d crop %d,%d %dx%d of %dx%d pf%d -> %d h=%016llx", k, r.x, r.y, r.w, r.h, sw, sh, pf, rc, (unsigned long long)fnv(out, nb));
       if (rc < 0) errinfo(t, hd, "crop");
       free(out);
     }
-    r.x = r.y = r.w = r.h = 0; tj3SetCroppingRegion(hd, r);
-    sf.num = sf.denom = 1; tj3SetScalingFactor(hd, sf);
+    r.x = r.y = r.w = r.h = 0; CK(hd, tj3SetCroppingRegion(hd, r));
+    sf.num = sf.denom = 1; CK(hd, tj3SetScalingFactor(hd, sf));
   } else if (!strcmp(n, "planes")) {  /* planes w h pf ss seed slot : EncodeYUVPlanes8 + CompressFromYUVPlanes8 + DecompressToYUVPlanes8 + DecodeYUVPlanes8 */
     tjhandle hc = t->h[0], hd = t->h[1];
     int w = a[0], h = a[1], pf = a[2], ss = a[3], S = a[5] % NS;
     if (!hc || !hd || t->htype[0] != TJINIT_COMPRESS || t->htype[1] != TJINIT_DECOMPRESS) { logf_(t, "%d planes skip", k); return; }
-    tj3Set(hc, TJPARAM_PRECISION, 8); tj3Set(hc, TJPARAM_LOSSLESS, 0); tj3Set(hc, TJPARAM_SUBSAMP, ss);
-    tj3Set(hc, TJPARAM_QUALITY, 85); tj3Set(hc, TJPARAM_NOREALLOC, 0); tj3Set(hc, TJPARAM_MAXMEMORY, 0);
+    CK(hc, tj3Set(hc, TJPARAM_PRECISION, 8)); CK(hc, tj3Set(hc, TJPARAM_LOSSLESS, 0)); CK(hc, tj3Set(hc, TJPARAM_SUBSAMP, ss));
+    CK(hc, tj3Set(hc, TJPARAM_QUALITY, 85)); CK(hc, tj3Set(hc, TJPARAM_NOREALLOC, 0)); CK(hc, tj3Set(hc, TJPARAM_MAXMEMORY, 0));
     unsigned char *img = (unsigned char *)mkimage(8, w, h, tjPixelSize[pf], (uint32_t)a[4]);
     unsigned char *pl[3] = { NULL, NULL, NULL }; int st[3] = { 0, 0, 0 };
     int np = ss == TJSAMP_GRAY ? 1 : 3;
@@ -538,26 +693,27 @@ static void run_op(thr_t *t, int k)
       st[i] = tj3YUVPlaneWidth(i, w, ss) + (a[4] & 7);
       pl[i] = (unsigned char *)calloc(tj3YUVPlaneSize(i, w, st[i], h, ss) + 1, 1);
     }
-    int rc = tj3EncodeYUVPlanes8(hc, img, w, 0, h, pf, pl, st);
+    int rc = CK(hc, tj3EncodeYUVPlanes8(hc, img, w, 0, h, pf, pl, st));
     for (int i = 0; i < np; i++) hh ^= fnv(pl[i], tj3YUVPlaneSize(i, w, st[i], h, ss)) * (i + 1);
     logf_(t, "%d planes enc %dx%d pf%d ss%d -> %d h=%016llx", k, w, h, pf, ss, rc, (unsigned long long)hh);
     if (rc < 0) errinfo(t, hc, "planes");
     else {
       free_slot(t, S);
-      rc = tj3CompressFromYUVPlanes8(hc, (const unsigned char * const *)pl, w, st, h, &t->slot[S], &t->slotsize[S]);
+      rc = CK(hc, tj3CompressFromYUVPlanes8(hc, (const unsigned char * const *)pl, w, st, h, &t->slot[S], &t->slotsize[S]));
       logf_(t, "  planes comp -> %d size=%zu h=%016llx", rc, rc == 0 ? t->slotsize[S] : 0, rc == 0 ? (unsigned long long)fnv(t->slot[S], t->slotsize[S]) : 0ULL);
       if (rc < 0) { errinfo(t, hc, "planes"); free_slot(t, S); }
       else {
+        t->slot[S] = (unsigned char *)rehome(t->slot[S], t->slotsize[S]);
         for (int i = 0; i < np; i++) memset(pl[i], 0, tj3YUVPlaneSize(i, w, st[i], h, ss));
-        tj3Set(hd, TJPARAM_SCANLIMIT, 0); tj3Set(hd, TJPARAM_MAXMEMORY, 0);
-        rc = tj3DecompressHeader(hd, t->slot[S], t->slotsize[S]);
-        if (rc == 0) rc = tj3DecompressToYUVPlanes8(hd, t->slot[S], t->slotsize[S], pl, st);
+        CK(hd, tj3Set(hd, TJPARAM_SCANLIMIT, 0)); CK(hd, tj3Set(hd, TJPARAM_MAXMEMORY, 0));
+        rc = CK(hd, tj3DecompressHeader(hd, t->slot[S], t->slotsize[S]));
+        if (rc == 0) rc = CK(hd, tj3DecompressToYUVPlanes8(hd, t->slot[S], t->slotsize[S], pl, st));
         hh = 0; for (int i = 0; i < np; i++) hh ^= fnv(pl[i], tj3YUVPlaneSize(i, w, st[i], h, ss)) * (i + 1);
         logf_(t, "  planes dec -> %d h=%016llx", rc, (unsigned long long)hh);
         if (rc < 0) errinfo(t, hd, "planes");
         size_t nb = (size_t)w * h * tjPixelSize[pf];
         unsigned char *rgb = (unsigned char *)calloc(nb ? nb : 1, 1);
-        rc = tj3DecodeYUVPlanes8(hd, (const unsigned char * const *)pl, st, rgb, w, 0, h, pf);
+        rc = CK(hd, tj3DecodeYUVPlanes8(hd, (const unsigned char * const *)pl, st, rgb, w, 0, h, pf));
         logf_(t, "  planes decode -> %d h=%016llx", rc, (unsigned long long)fnv(rgb, nb));
         if (rc < 0) errinfo(t, hd, "planes");
         free(rgb);
@@ -574,19 +730,19 @@ static void run_op(thr_t *t, int k)
     int bmp = a[6] && prec == 8;
     snprintf(fn, sizeof(fn), "%s/c15_%d_%d_%d.%s", dir, (int)getpid(), t->tid, k, bmp ? "bmp" : "ppm");
     void *img = mkimage(prec, w, h, tjPixelSize[pf], (uint32_t)a[5]);
-    tj3Set(hd, TJPARAM_PRECISION, prec);
+    CK(hd, tj3Set(hd, TJPARAM_PRECISION, prec));
     int rc;
-    if (prec <= 8) rc = tj3SaveImage8(hd, fn, (unsigned char *)img, w, 0, h, pf);
-    else if (prec <= 12) rc = tj3SaveImage12(hd, fn, (short *)img, w, 0, h, pf);
-    else rc = tj3SaveImage16(hd, fn, (unsigned short *)img, w, 0, h, pf);
+    if (prec <= 8) rc = CK(hd, tj3SaveImage8(hd, fn, (unsigned char *)img, w, 0, h, pf));
+    else if (prec <= 12) rc = CK(hd, tj3SaveImage12(hd, fn, (short *)img, w, 0, h, pf));
+    else rc = CK(hd, tj3SaveImage16(hd, fn, (unsigned short *)img, w, 0, h, pf));
     logf_(t, "%d file save p%d %dx%d pf%d %s -> %d", k, prec, w, h, pf, bmp ? "bmp" : "ppm", rc);
     if (rc < 0) errinfo(t, hd, "save");
     else {
       int lw = 0, lh = 0, lpf = pf;
       void *ld;
-      if (prec <= 8) ld = tj3LoadImage8(hd, fn, &lw, 1, &lh, &lpf);
-      else if (prec <= 12) ld = tj3LoadImage12(hd, fn, &lw, 1, &lh, &lpf);
-      else ld = tj3LoadImage16(hd, fn, &lw, 1, &lh, &lpf);
+      if (prec <= 8) ld = CKP(hd, tj3LoadImage8(hd, fn, &lw, 1, &lh, &lpf));
+      else if (prec <= 12) ld = CKP(hd, tj3LoadImage12(hd, fn, &lw, 1, &lh, &lpf));
+      else ld = CKP(hd, tj3LoadImage16(hd, fn, &lw, 1, &lh, &lpf));
       size_t nb = ld ? (size_t)lw * lh * tjPixelSize[lpf] * (prec <= 8 ? 1 : 2) : 0;
       logf_(t, "  file load -> %s %dx%d pf%d h=%016llx", ld ? "ok" : "NULL", lw, lh, lpf, (unsigned long long)fnv(ld, nb));
       if (!ld) errinfo(t, hd, "load");
@@ -594,12 +750,12 @@ static void run_op(thr_t *t, int k)
     }
     /* a failing load: sets the instance and the thread-local error strings (strerror path) */
     snprintf(fn + strlen(fn), sizeof(fn) - strlen(fn), ".missing");
-    { int lw, lh, lpf = TJPF_UNKNOWN; void *ld = tj3LoadImage8(hd, fn, &lw, 1, &lh, &lpf);
+    { int lw, lh, lpf = TJPF_UNKNOWN; void *ld = CKP(hd, tj3LoadImage8(hd, fn, &lw, 1, &lh, &lpf));
       logf_(t, "  file missing -> %s", ld ? "ok?" : "NULL"); errinfo(t, hd, "missing"); if (ld) tj3Free(ld); }
     fn[strlen(fn) - 8] = 0;
     unlink(fn);
     free(img);
-    tj3Set(hd, TJPARAM_PRECISION, 8);
+    CK(hd, tj3Set(hd, TJPARAM_PRECISION, 8));
   } else if (!strcmp(n, "ljdec")) {   /* ljdec slot mode colors dither : raw libjpeg API decompression with colour quantisation */
     lj_decompress(t, k, a[0] % NS, a[1], a[2], a[3]);
   } else if (!strcmp(n, "ljcomp")) {  /* ljcomp slot w h q opt seed : raw libjpeg API compression into a slot */
@@ -609,7 +765,16 @@ static void run_op(thr_t *t, int k)
     if (t->h[H]) errinfo(t, t->h[H], "geterr"); else logf_(t, "%d geterr skip", k);
   } else if (!strcmp(n, "gerr")) {
     logf_(t, "%d gerr \"%s\" code=%d", k, tj3GetErrorStr(NULL), tj3GetErrorCode(NULL));
+    ev_add(t, 'Q', -1, tj3GetErrorStr(NULL));
   } else if (!strcmp(n, "helper")) {  /* helper kind a b c */
+    char before[JMSG_LENGTH_MAX]; snprintf(before, sizeof(before), "%s", tj3GetErrorStr(NULL));
+    int hk = a[0] % 7;
+    if (hk < 5) {   /* normally succeeding helpers: a failure (e.g. chroma plane of a grayscale image) sets the thread-local string */
+      size_t z = hk == 0 ? tj3JPEGBufSize(a[1], a[2], a[3] % 7) : hk == 1 ? tj3YUVBufSize(a[1], 1 << (a[3] % 4), a[2], a[3] % 6) :
+                 hk == 2 ? tj3YUVPlaneSize(a[3] % 3, a[1], 0, a[2], a[3] % 6) : 1;
+      if (hk == 2 && (tj3YUVPlaneWidth(a[3] % 3, a[1], a[3] % 6) <= 0 || tj3YUVPlaneHeight(a[3] % 3, a[2], a[3] % 6) <= 0)) z = 0;
+      if (z == 0 || strcmp(before, tj3GetErrorStr(NULL))) ev_add(t, 'T', -1, tj3GetErrorStr(NULL));
+    }
     switch (a[0] % 7) {
     case 0: logf_(t, "%d jpegbufsize %zu", k, tj3JPEGBufSize(a[1], a[2], a[3] % 7)); break;
     case 1: logf_(t, "%d yuvbufsize %zu", k, tj3YUVBufSize(a[1], 1 << (a[3] % 4), a[2], a[3] % 6)); break;
@@ -628,6 +793,7 @@ static void run_op(thr_t *t, int k)
     case 5: {   /* failing helper: sets only the thread-local error string */
       size_t r = tj3JPEGBufSize(-(1 + a[1] % 100), a[2], 0);
       logf_(t, "%d jpegbufsize-bad %zu gerr=\"%s\"", k, r, tj3GetErrorStr(NULL));
+      ev_add(t, 'T', -1, "tj3JPEGBufSize(): Invalid argument"); ev_add(t, 'Q', -1, tj3GetErrorStr(NULL));
       own(t, k, "thread-local error string of a failing helper", tj3GetErrorStr(NULL), "tj3JPEGBufSize");
       sched_yield();
       own(t, k, "thread-local error string of a failing helper after yielding", tj3GetErrorStr(NULL), "tj3JPEGBufSize");
@@ -635,20 +801,26 @@ static void run_op(thr_t *t, int k)
     default: {
       size_t r = tj3YUVBufSize(a[1], 3, a[2], 0);   /* align 3: invalid */
       logf_(t, "%d yuvbufsize-bad %zu gerr=\"%s\"", k, r, tj3GetErrorStr(NULL));
+      ev_add(t, 'T', -1, "tj3YUVBufSize(): Invalid argument"); ev_add(t, 'Q', -1, tj3GetErrorStr(NULL));
       own(t, k, "thread-local error string of a failing helper", tj3GetErrorStr(NULL), "tj3YUVBufSize");
       break; }
     }
   } else if (!strcmp(n, "legacy") && strcmp(n, "icc") && strcmp(n, "planes") && strcmp(n, "ljdec") && strcmp(n, "ljcomp")) {  /* legacy w h pf subsamp qual seed : 2.x API with flags=0 (no env write) */
     int w = a[0], h = a[1], pf = a[2], ss = a[3], q = a[4];
-    tjhandle c = tjInitCompress();
+    own_new(); in_lib = iso_on; tjhandle c = tjInitCompress(); in_lib = 0; own_bind(c);
     unsigned char *img = (unsigned char *)mkimage(8, w, h, tjPixelSize[pf], (uint32_t)a[5]);
     unsigned char *jb = NULL; unsigned long js = 0;
+    own_set(c); in_lib = iso_on;
     int rc = c ? tjCompress2(c, img, w, 0, h, pf, &jb, &js, ss, q, 0) : -1;
+    in_lib = 0;
+    if (rc == 0) jb = (unsigned char *)rehome(jb, js);
     logf_(t, "%d legacy comp -> %d size=%lu h=%016llx", k, rc, rc == 0 ? js : 0, rc == 0 ? (unsigned long long)fnv(jb, js) : 0ULL);
     if (rc == 0) {
-      tjhandle d = tjInitDecompress();
+      own_new(); in_lib = iso_on; tjhandle d = tjInitDecompress(); in_lib = 0; own_bind(d);
       unsigned char *out = (unsigned char *)calloc((size_t)w * h * tjPixelSize[pf] + 1, 1);
+      own_set(d); in_lib = iso_on;
       rc = d ? tjDecompress2(d, jb, js, out, w, 0, h, pf, 0) : -1;
+      in_lib = 0;
       logf_(t, "  legacy decomp -> %d h=%016llx", rc, (unsigned long long)fnv(out, (size_t)w * h * tjPixelSize[pf]));
       if (rc < 0 && d) logf_(t, "  legacy err=\"%s\"", tjGetErrorStr2(d));
       /* failing legacy call: tjGetErrorStr() reads the thread-local string */
@@ -659,7 +831,9 @@ static void run_op(thr_t *t, int k)
     }
     if (jb) tjFree(jb);
     free(img);
-    if (c) tjDestroy(c);
+    if (c) { own_set(c); tjDestroy(c); }
+    own_none();
+    ev_add(t, 'T', -1, tjGetErrorStr());      /* the legacy calls above went through their own instances */
   } else if (!strcmp(n, "yield")) {
     sched_yield(); if (a[0] > 0) usleep(a[0] % 300);
   } else {
@@ -672,6 +846,7 @@ static void reset_state(thr_t *t)
   memset(t->h, 0, sizeof(t->h)); memset(t->htype, 0, sizeof(t->htype));
   memset(t->slot, 0, sizeof(t->slot)); memset(t->slotsize, 0, sizeof(t->slotsize));
   memset(t->mark, 0, sizeof(t->mark));
+  t->lastc = -1;
   t->log = NULL; t->loglen = t->logcap = 0;
 }
 
@@ -680,9 +855,10 @@ static void *worker(void *arg)
   thr_t *t = (thr_t *)arg;
   if (nthreads > 1 && t->tid >= 0) pthread_barrier_wait(&bar);
   for (int k = 0; k < t->nops; k++) run_op(t, k);
-  for (int i = 0; i < NH; i++) if (t->h[i]) { tj3Destroy(t->h[i]); t->h[i] = NULL; }
+  for (int i = 0; i < NH; i++) if (t->h[i]) { own_set(t->h[i]); tj3Destroy(t->h[i]); t->h[i] = NULL; }
   for (int i = 0; i < NS; i++) free_slot(t, i);
-  if (t->pre) { tj3Destroy(t->pre); t->pre = NULL; }
+  if (t->pre) { own_set(t->pre); tj3Destroy(t->pre); t->pre = NULL; }
+  own_none();
   __atomic_add_fetch(&done_count, 1, __ATOMIC_SEQ_CST);
   return NULL;
 }
@@ -727,13 +903,19 @@ int main(int argc, char **argv)
   for (int i = 0; i < nthreads; i++) {
     T[i].tid = i; reset_state(&T[i]); T[i].ownfail = 0;
     int pt = pre_type(&T[i]);
-    T[i].pre = pt >= 0 ? tj3Init(pt) : NULL;
+    T[i].pre = pt >= 0 ? tj_init(pt) : NULL; own_none();
   }
+  ev_on = 1;
   for (int i = 0; i < nthreads; i++) pthread_create(&th[i], NULL, worker, &T[i]);
   if (nwatch && getenv("C15_WATCH_POLL"))     /* un-instrumented build only: sample while the workers run */
     while (__atomic_load_n(&done_count, __ATOMIC_SEQ_CST) < nthreads) { watch_check("while-threads-run"); usleep(50); }
   for (int i = 0; i < nthreads; i++) pthread_join(th[i], NULL);
+  ev_on = 0;
   int wbad = watch_check("after-concurrent-phase");
+  if (getenv("C15_EVENTS"))
+    for (int i = 0; i < nthreads; i++)
+      for (int j = 0; j < T[i].nev; j++)
+        printf("EV %lu %d %c %d %s\n", T[i].ev[j].seq, i, T[i].ev[j].kind, T[i].ev[j].H, T[i].ev[j].msg ? T[i].ev[j].msg : "");
   for (int i = 0; i < nthreads; i++) {
     clog[i] = T[i].log ? T[i].log : strdup(""); clen[i] = T[i].loglen; cown[i] = T[i].ownfail;
     memcpy(cmsg[i], T[i].ownmsg, sizeof(cmsg[i]));
@@ -744,13 +926,37 @@ int main(int argc, char **argv)
   for (int i = 0; i < saved; i++) {
     reset_state(&T[i]); T[i].ownfail = 0;
     int pt = pre_type(&T[i]);
-    T[i].pre = pt >= 0 ? tj3Init(pt) : NULL;
+    T[i].pre = pt >= 0 ? tj_init(pt) : NULL; own_none();
     pthread_create(&th[i], NULL, worker, &T[i]);
     pthread_join(th[i], NULL);
   }
   nthreads = saved;
   wbad |= watch_check("after-solo-phase");
   int bad = wbad;
+#ifdef C15_WRAP
+  /* ---------------- phase 3: each list alone once more with heap isolation between instances */
+  if (getenv("C15_ISOLATE")) {
+    char *slog[MAXT];
+    struct sigaction sa; memset(&sa, 0, sizeof(sa)); sa.sa_sigaction = iso_fault; sa.sa_flags = SA_SIGINFO;
+    sigaction(SIGSEGV, &sa, NULL);
+    nthreads = 1;
+    iso_on = 1;
+    for (int i = 0; i < saved; i++) {
+      slog[i] = T[i].log;
+      reset_state(&T[i]); T[i].ownfail = 0;
+      int pt = pre_type(&T[i]);
+      T[i].pre = pt >= 0 ? tj_init(pt) : NULL; own_none();
+      pthread_create(&th[i], NULL, worker, &T[i]);
+      pthread_join(th[i], NULL);
+      int same = !strcmp(T[i].log ? T[i].log : "", slog[i] ? slog[i] : "");
+      printf("T%d ISO %s owners=%d regions=%d\n", i, same ? "OK" : "DIFF", n_owner, nreg);
+      if (!same) bad = 1;
+      T[i].log = slog[i];
+    }
+    iso_on = 0;
+    nthreads = saved;
+  }
+#endif
   for (int i = 0; i < nthreads; i++) {
     const char *sl = T[i].log ? T[i].log : "";
     if (cown[i]) { printf("T%d OWN %s\n", i, cmsg[i]); bad = 1; }
